@@ -263,6 +263,9 @@ def write_replay(pid, payload):
 
 
 def write_evidence(pid, ev):
-    os.makedirs(os.path.join(ROOT, "evidence"), exist_ok=True)
-    with open(os.path.join(ROOT, "evidence", "%s.json" % pid), "w") as f:
+    # evidence/ only ever describes runs against /repo itself; runs against a scratch copy (VERIF_REPO, used to
+    # try seeded regressions) are recorded next to the replays instead
+    d = os.path.join(ROOT, "evidence") if os.path.realpath(REPO) == "/repo" else os.path.join(ROOT, "replays", "evidence_scratch")
+    os.makedirs(d, exist_ok=True)
+    with open(os.path.join(d, "%s.json" % pid), "w") as f:
         json.dump(ev, f, indent=1, default=str)
